@@ -230,3 +230,12 @@ package decoders
 //@ props C03 C13
 //@ env pooltype(d.pool, *ammo.RawAmmo)
 //@ ensures [only-decoder-entries-are-pooled] imp(!typeis(a, *ammo.RawAmmo), calls(d.pool.Put) == 0)
+
+//@ func newJsonlineDecoder
+//@ props C07 C08 C14
+//@ ensures [array-detection-failure-is-an-error] imp(result_of(isArray, 1) != nil, result1 == result_of(isArray, 1) && result0 == nil)
+//@ ensures [unreadable-array-is-an-error] imp(calls(decoder.readArray) == 1 && result_of(decoder.readArray, 1) != nil, result1 != nil)
+//@ ensures [the-whole-array-is-kept] imp(result1 == nil && result_of(isArray, 0), calls(decoder.readArray) == 1 && result0.ammos == result_of(decoder.readArray, 0))
+//@ ensures [line-form-keeps-nothing] imp(result1 == nil && !result_of(isArray, 0), len(result0.ammos) == 0 && calls(decoder.readArray) == 0)
+//@ ensures [starts-from-nothing] imp(result1 == nil && !result_of(isArray, 0), fresh(result0) && result0.file == file && result0.config == cfg && result0.decodedConfigHeaders == decodedConfigHeaders && result0.ammoNum == 0 && result0.passNum == 0 && result0.line == 0 && result0.pool != nil)
+//@ at call isArray assert arg(r) == file0
